@@ -53,7 +53,7 @@ class FeatOpGen(OpGen):
         return [k for k in enabled if k == self.iou_key(tracks)]
 
 
-WEIGHTS = {"paint": 7, "update_attrs": 0.2, "delete_node": 4, "add_node": 4, "features": 2,
+WEIGHTS = {"reload": 0.3, "paint": 7, "update_attrs": 0.2, "delete_node": 4, "add_node": 4, "features": 2,
            "scenario": 1.0}
 
 
